@@ -382,6 +382,35 @@ theorem modeKeeper_emitRData (t : Nat) (d : RData) (hp : d.proved = true) : Mode
     rcases hf with rfl | rfl <;> exact modeKeeper_emitCharacterData _
   case null d => exact modeKeeper_emitSlice d
   case unknown c d => exact modeKeeper_emitSlice d
+  case openpgpkey d => exact modeKeeper_emitSlice d
+  case cert ct tag alg d =>
+    refine modeKeeper_withRdataBehavior (modeKeeper_seqAll _ ?_) _
+    intro f hf
+    simp only [List.mem_cons, List.not_mem_nil, or_false] at hf
+    rcases hf with rfl | rfl | rfl | rfl
+    all_goals first | exact modeKeeper_emitU16 _ | exact modeKeeper_emitU8 _ | exact modeKeeper_emitSlice _
+  case caa cr rs tag v =>
+    refine modeKeeper_withRdataBehavior (modeKeeper_seqAll _ ?_) _
+    intro f hf
+    simp only [List.mem_cons, List.not_mem_nil, or_false] at hf
+    rcases hf with rfl | rfl | rfl | rfl
+    · exact modeKeeper_emitU8 _
+    · by_cases hl : tag.length > 255
+      · simp only [hl, ↓reduceIte]; intro e; exact ⟨rfl, rfl⟩
+      · simp only [hl, ↓reduceIte]; exact modeKeeper_emitU8 _
+    · exact modeKeeper_emitSlice _
+    · exact modeKeeper_emitSlice _
+  all_goals
+    refine modeKeeper_seqAll _ ?_
+    intro f hf
+    simp only [List.mem_cons, List.not_mem_nil, or_false] at hf
+    first
+      | (rcases hf with rfl | rfl | rfl | rfl | rfl
+         all_goals first | exact modeKeeper_emitU16 _ | exact modeKeeper_emitU8 _ | exact modeKeeper_emitSlice _)
+      | (rcases hf with rfl | rfl | rfl | rfl
+         all_goals first | exact modeKeeper_emitU16 _ | exact modeKeeper_emitU8 _ | exact modeKeeper_emitSlice _)
+      | (rcases hf with rfl | rfl | rfl
+         all_goals first | exact modeKeeper_emitU16 _ | exact modeKeeper_emitU8 _ | exact modeKeeper_emitSlice _)
 
 theorem modeKeeper_emitRecord (r : Record) (hp : r.rdata.isUpdate = true ∨ r.rdata.proved = true) :
     ModeKeeper (emitRecord r) := by
